@@ -8,27 +8,27 @@ CONSTANTS
   TrackObs = TRUE
   TrackDeps = FALSE
   Dev = "none"
-  SetupPlan <- Tamper_SetupPlan
-  RegPlan <- Tamper_RegPlan
-  RegIdus <- Tamper_RegIdus
-  RegIdss <- Tamper_RegIdss
-  RegKsfs <- Tamper_RegKsfs
-  CliPw <- Tamper_CliPw
-  SrvSetups <- Tamper_SrvSetups
-  SrvRecs <- Tamper_SrvRecs
-  SrvCids <- Tamper_SrvCids
-  SrvCtxs <- Tamper_SrvCtxs
-  SrvIdus <- Tamper_SrvIdus
-  SrvIdss <- Tamper_SrvIdss
-  CliCtxs <- Tamper_CliCtxs
-  CliIdus <- Tamper_CliIdus
-  CliIdss <- Tamper_CliIdss
-  CliKsfs <- Tamper_CliKsfs
-  MutPlan <- Tamper_MutPlan
-  Splice = TRUE
+  SetupPlan <- Long_SetupPlan
+  RegPlan <- Long_RegPlan
+  RegIdus <- Long_RegIdus
+  RegIdss <- Long_RegIdss
+  RegKsfs <- Long_RegKsfs
+  CliPw <- Long_CliPw
+  SrvSetups <- Long_SrvSetups
+  SrvRecs <- Long_SrvRecs
+  SrvCids <- Long_SrvCids
+  SrvCtxs <- Long_SrvCtxs
+  SrvIdus <- Long_SrvIdus
+  SrvIdss <- Long_SrvIdss
+  CliCtxs <- Long_CliCtxs
+  CliIdus <- Long_CliIdus
+  CliIdss <- Long_CliIdss
+  CliKsfs <- Long_CliKsfs
+  MutPlan <- Long_MutPlan
+  Splice = FALSE
   Reloads = FALSE
   ExtFail = FALSE
-  MaxFree = 7
+  MaxFree = 5
 INVARIANT Agreement
 INVARIANT ClientAcceptsOnlyMatched
 INVARIANT ServerAcceptsOnlyMatched
